@@ -266,7 +266,9 @@ func (w *World) checkC17() []Violation {
 	}
 	_ = metas
 	// (4) hot loop: the run consumed its step budget while fake time stood still
-	if w.Env.Step >= w.Env.Knobs.MaxSteps-1 && w.Env.Now() < w.Env.Knobs.MaxFake/4 {
+	if n := w.Env.MaxInstantSteps; n > 40000 {
+		vs = append(vs, w.viol("C17", "hot-loop", "scenario %s: %d consecutive scheduler steps were taken without the simulated clock advancing (%d requests executed in the run): retries are not separated by waits", scen, n, len(c.Execs)))
+	} else if w.Env.Step >= w.Env.Knobs.MaxSteps-1 && w.Env.Now() < w.Env.Knobs.MaxFake/4 {
 		vs = append(vs, w.viol("C17", "hot-loop", "scenario %s: %d scheduler steps were consumed in %v of simulated time (%d requests executed): retries are not separated by waits", scen, w.Env.Step, w.Env.Now(), len(c.Execs)))
 	}
 	return vs
